@@ -54,6 +54,8 @@ def run(ctx):
     for cls in CONC_SPECS + [XMapSpec]:
         spec = cls()
         vlib.seq_differential(ctx, spec, exe, proofs_ok, tag=spec.component)
+        if ctx.tier == "thorough" and cls is not XMapSpec:
+            vlib.patience_part(ctx, spec, exe, proofs_ok, tag=spec.component, ncases=16)
     if ctx.tier == "thorough":
         race_tier(ctx)
     vlib.merge_parts(ctx, "part A: cases = controller scripts over a fixed set of goroutines (programs of Set/Value calls and observer loops behind common start gates; "
